@@ -166,8 +166,18 @@ def vals_of(o):
 
 # ---------------------------------------------------------------- oracles
 def oracle_wellformed(cfg, ops, steps):
-    """C15/C05: no panic; len = number of iterated values; get(i) is Some exactly below len; bounds."""
+    """C15/C05: no panic; len = number of iterated values; get(i) is Some exactly below len; bounds; the
+    copy-on-write iterator hands out exactly one handle per element"""
     out = []
+    prev_o = {}
+    for st, op in zip(steps, ops):
+        p = op.split()
+        if p[0] == 'iter_cow' and st.result.startswith('ok:') and p[1] in prev_o:
+            items = 0 if p[2] == '-' else len(p[2].split(','))
+            want = min(items, int(prev_o[p[1]]['len']))
+            if st.result != 'ok:%d' % want:
+                out.append(Finding(st.n, '`iter_cow` over %d requested items of a %s-element list handed out %s handles' % (items, prev_o[p[1]]['len'], st.result[3:])))
+        prev_o = st.O
     for st in steps:
         if st.result == 'panic':
             out.append(Finding(st.n, 'operation panicked'))
@@ -479,6 +489,17 @@ def oracle_isolation(cfg, ops, steps):
                 elif o != po:
                     diff = [k for k in po if po.get(k) != o.get(k)]
                     out.append(Finding(st.n, '%s changed (%s) although `%s` does not target it' % (reg, ','.join(diff), op[:60])))
+        # derived versions are faithful, independent copies of what their source showed
+        if prev is not None and st.result == 'ok' and p[0] in ('clone', 'rebase', 'rebase_on', 'to_vector', 'to_list'):
+            src = p[1]
+            dst = {'clone': p[2] if len(p) > 2 else None, 'rebase': p[3] if len(p) > 3 else None, 'rebase_on': p[1],
+                   'to_vector': p[2] if len(p) > 2 else None, 'to_list': p[2] if len(p) > 2 else None}[p[0]]
+            po, o = prev.O.get(src), st.O.get(dst) if dst else None
+            if po is not None and o is not None:
+                keys = ['len', 'vals', 'gets', 'empty'] + (['pend', 'kind'] if p[0] in ('clone', 'rebase', 'rebase_on') else [])
+                diff = [k for k in keys if po.get(k) != o.get(k)]
+                if diff:
+                    out.append(Finding(st.n, '`%s`: %s does not show what %s showed before (%s differ)' % (op[:60], dst, src, ','.join(diff))))
         for r in tg:
             if p[0] != 'hash' and p[0] not in ('get', 'len', 'iter_from', 'level_iter', 'eq', 'ssz_enc', 'serde_ser', 'par_hash', 'par_mix', 'cow_read'):
                 last_root.pop(r, None)
@@ -489,6 +510,41 @@ def oracle_isolation(cfg, ops, steps):
             last_root[r] = st.result
         if p[0] == 'clone' and len(p) == 3 and p[1] in last_root and st.result == 'ok':
             last_root[p[2]] = last_root[p[1]]        # a clone shows the same root
+        prev = st
+    return out
+
+
+# ---------------------------------------------------------------- "changes nothing" (C07, C09)
+def oracle_unchanged(cfg, ops, steps):
+    """C07 / C09: a rebase or a self-deduplication succeeds and changes nothing that any handle shows (contents,
+    length, reads; `intra` flushes, so its pending flag may drop). `rebase A B C` makes C show what A showed."""
+    out = []
+    prev = None
+    for st, op in zip(steps, ops):
+        p = op.split()
+        if p[0] in ('rebase_on', 'rebase', 'intra') and prev is not None and st.result not in ('panic', 'err:badreg'):
+            if st.result != 'ok':
+                out.append(Finding(st.n, '`%s` failed: %s' % (op[:60], st.result[:120])))
+            else:
+                for reg, po in prev.O.items():
+                    if p[0] == 'rebase' and len(p) == 4 and reg == p[3]:
+                        continue
+                    o = st.O.get(reg)
+                    if o is None:
+                        out.append(Finding(st.n, '`%s`: %s disappeared' % (op[:60], reg)))
+                        continue
+                    keys = [k for k in po if not (k == 'pend' and p[0] == 'intra' and reg == p[1])]
+                    diff = [k for k in keys if po.get(k) != o.get(k)]
+                    if diff:
+                        out.append(Finding(st.n, '`%s` changed what %s shows (%s)' % (op[:60], reg, ','.join(diff))))
+                if p[0] == 'rebase' and len(p) == 4:
+                    po, o = prev.O.get(p[1]), st.O.get(p[3])
+                    if po is not None and (o is None or any(po.get(k) != o.get(k) for k in po)):
+                        out.append(Finding(st.n, '`%s`: %s does not show what %s showed' % (op[:60], p[3], p[1])))
+                if p[0] == 'intra':
+                    o = st.O.get(p[1])
+                    if o is not None and o.get('pend') != '0':
+                        out.append(Finding(st.n, '`%s`: writes still pending afterwards' % op[:60]))
         prev = st
     return out
 
@@ -615,5 +671,5 @@ def oracle_par(cfg, ops, steps):
 ORACLES = {
     'wellformed': oracle_wellformed, 'error_preserves': oracle_error_preserves, 'memo': oracle_memo,
     'canonical': oracle_canonical, 'sharing': oracle_sharing, 'cost': oracle_cost, 'builder': oracle_builder,
-    'isolation': oracle_isolation, 'capacity': oracle_capacity, 'suffix': oracle_suffix, 'par': oracle_par,
+    'isolation': oracle_isolation, 'unchanged': oracle_unchanged, 'capacity': oracle_capacity, 'suffix': oracle_suffix, 'par': oracle_par,
 }
